@@ -99,10 +99,30 @@ def run(chk):
         for ob in obs:
             chk.add(ob)
 
+    bounded(chk)
+
     def replayer(ob):
         from props import c20_replay
         return c20_replay.replay(ob.witness) if ob.witness else None
     return replayer
+
+
+def bounded(chk):
+    """bounded stand-in (never counted as proved): the real __getitem__ / Sliced code on concrete operators against NumPy indexing of the dense matrix.  It
+    also decides changes that move the code outside the symbolic engine's reach (e.g. a builtin such as slice.indices applied to a dimension)."""
+    import time
+    from props import c20_replay
+    from vcgen.core import DISCHARGED, FAILED, Ob
+    t0 = time.time()
+    rp = c20_replay.replay(dict(engine="SLICED", part="bounded"), timeout=900)
+    ok = rp.get("replayed") and not rp.get("failing_input_found")
+    ob = Ob(key="C20/indexing expressions (int, slice with either sign of step, empty, index arrays, nested) on concrete operators: value, shape and products equal NumPy "
+                "indexing of the dense matrix/bounded(11 operators, shapes <= 5x5)", fn="cola.ops.operators.Sliced", clause="indexing agrees with the dense matrix on concrete operators",
+            engine="BOUNDED", status=DISCHARGED if ok else FAILED, backend="real code on concrete inputs", secs=time.time() - t0, bounded=True,
+            detail=str({k: v for k, v in rp.items() if k != "replayed"})[:400])
+    if not ok:
+        ob.witness = dict(engine="SLICED", part="bounded")
+    chk.add(ob)
 
 
 def build_key(kind, tag, n):
